@@ -238,6 +238,7 @@ ASTNode *RecursiveParser::cloneAstNode(const ASTNode *node) {
     clone->pointer_base_type = node->pointer_base_type;
     clone->is_reference = node->is_reference;
     clone->is_unsigned = node->is_unsigned;
+    clone->reuse_assign_target_indices = node->reuse_assign_target_indices;
     clone->int_value = node->int_value;
     clone->str_value = node->str_value;
     clone->name = node->name;
